@@ -280,16 +280,19 @@ theorem add_checker_iff (accepted : Bool) (old afterOld res args heldOld heldAft
     rw [sortedDisjoint_iff, List.isPerm_iff]
 
 /-- what is demanded of a transcript after every operation (`S`, `R`: updates; `A`, `Z`: an `Add`
-    on (a re-slice of) `t.Exons()` whose result is dropped) -/
+    on (a re-slice of) `t.Exons()` whose result is dropped; `O`, `M`: the orientation / the start of a
+    feature of the location chain was assigned — `node`, `loc` are the chain after the operation, so
+    `utr_cds` demands the order dictated by the *current* product of orientations) -/
 structure TxOK (coding : Bool) (node : Node) (loc : Chain) (cdsStart cdsEnd : Int)
     (kind : String) (accepted : Bool) (args prev es : List Exon) (is : List Intron)
     (tstart tend tlen : Int) (utr : Option (Piece × Piece × Piece)) (sh : String) : Prop where
   /-- after an accepted operation the exons are sorted and pairwise non-overlapping, on the
       transcript, start at 0, and are the given ones: the arguments of `SetExons`, or — after an
-      `Add` whose result is dropped — still the set accepted last -/
+      `Add` whose result is dropped or a change of the location chain — still the set accepted last -/
   accepted_exons : accepted = true →
     Disjoint es ∧ (∀ e ∈ es, e.loc = 1) ∧ startOf es = 0 ∧
-      es.Perm (if kind = "R" then prev ++ args else if kind = "A" ∨ kind = "Z" then prev else args)
+      es.Perm (if kind = "R" then prev ++ args
+       else if kind = "A" ∨ kind = "Z" ∨ kind = "O" ∨ kind = "M" then prev else args)
   /-- exons and introns alternate, the introns are the gaps -/
   alternate : is.length + 1 = es.length ∨ (es = [] ∧ is = [])
   gaps : IntronsAreGaps es is
@@ -315,15 +318,20 @@ structure TxOK (coding : Bool) (node : Node) (loc : Chain) (cdsStart cdsEnd : In
 
 theorem givenExons_eq (kind : String) (args prev : List Exon) :
     givenExons kind args prev =
-      (if kind = "R" then prev ++ args else if kind = "A" ∨ kind = "Z" then prev else args) := by
-  unfold givenExons dropped
+      (if kind = "R" then prev ++ args
+       else if kind = "A" ∨ kind = "Z" ∨ kind = "O" ∨ kind = "M" then prev else args) := by
+  unfold givenExons dropped chainChange
   by_cases h1 : kind = "R"
   · simp [h1]
   · by_cases h2 : kind = "A"
     · simp [h2]
     · by_cases h3 : kind = "Z"
       · simp [h3]
-      · simp [h1, h2, h3]
+      · by_cases h4 : kind = "O"
+        · simp [h4]
+        · by_cases h5 : kind = "M"
+          · simp [h5]
+          · simp [h1, h2, h3, h4, h5]
 
 /-- **transcripts, checker ⇒ statement**: when the driver reports no violation for a transcript
     after an operation, then — rejected (any kind, `Z` = `t.Exons()[:j].Add(…)` included): the exon
